@@ -66,6 +66,14 @@ Theorem C12_in_order_is_file_order : forall (e : env) (h : list args) (a : args)
 Proof. exact in_order_file_order. Qed.
 Print Assumptions C12_in_order_is_file_order.
 
+(* Without a source_ids argument no source test is made: every source in the log is returned, whatever the reader
+   discovered when it sampled the first messages of each type (repair /repo 3541285; the source of this fact,
+   `if source_ids is None`, is re-read from data_loader.py on every run). *)
+Theorem C12_no_source_filter_returns_all_sources : forall (e : env) (a : args),
+  a_src a = None -> spec_messages e a false = spec_messages e a true.
+Proof. exact no_source_filter_spec. Qed.
+Print Assumptions C12_no_source_filter_returns_all_sources.
+
 (* What the pre-repair code did (the records of the findings that led to /repo dabd2e0 and 224b603). *)
 Theorem C12_cache_transparent_legacy_refuted :
   exists e h a, env_ok e /\ snd (read_legacy e (run_gen legacy e init_state h) a) <> snd (read_legacy e init_state a).
@@ -108,3 +116,11 @@ Example C12_repaired_sequences :
   ords_of (snd (read wenv (run wenv init_state [with_max 2 (call [POSE])]) (with_max 2 (call [POSE; POSE_AUX])))) POSE = Some [1; 2]%N /\
   ords_of (snd (read wenv (run wenv init_state [call [POSE]]) (call [POSE; POSE_AUX]))) POSE = Some [1; 2; 8]%N.
 Proof. exact current_sequences_transparent. Qed.
+
+(* a source the reader's sampling did not discover is returned when no source_ids are given; requesting it by id
+   still returns nothing (the remaining known finding) *)
+Example C12_undiscovered_source_nonvacuous :
+  ords_of (fresh lenv (call [POSE])) POSE = Some [0; 1; 2]%N /\
+  ords_of (fresh lenv (with_src [0; 5]%N (call [POSE]))) POSE = Some [0; 1]%N /\
+  map m_ord (spec_messages lenv (with_src [0; 5]%N (call [POSE])) true) = [0; 1; 2]%N.
+Proof. exact undiscovered_source_instances. Qed.
